@@ -12,55 +12,97 @@ theorem pyDecode_cls {b : B} {s : String} {a : Atom} (h : pyDecode b s = some a)
     simp_all [classOf, B.isSpecial] <;> (try (subst h; rfl)) <;> (try (rw [← h])) <;>
     (try (obtain ⟨c, _, rfl⟩ := h; rfl))
 
-theorem firstProto_cls : ∀ {bs : List B} {s : String} {a : Atom}, firstProto bs s = some a →
-    ∃ b ∈ bs, a.cls = classOf b
-  | [], _, _, h => by simp [firstProto] at h
-  | b :: bs, s, a, h => by
-    simp only [firstProto] at h
-    cases hd : pyDecode b s with
-    | some v =>
-      rw [hd] at h; cases h
-      exact ⟨b, List.mem_cons_self, pyDecode_cls hd⟩
-    | none =>
-      rw [hd] at h
-      obtain ⟨b', hb', hc⟩ := firstProto_cls h
-      exact ⟨b', List.mem_cons_of_mem _ hb', hc⟩
-
-theorem decodeAll_cls : ∀ {bs : List B} {items : List String} {vs : List Atom},
-    decodeAll bs items = some vs → ∀ a ∈ vs, ∃ b ∈ bs, a.cls = classOf b
-  | _, [], vs, h => by simp [decodeAll] at h; subst h; intro a ha; cases ha
-  | bs, w :: ws, vs, h => by
-    simp only [decodeAll] at h
-    cases hw : firstProto bs w with
+theorem mapM_pyDecode_cls {b : B} : ∀ {ws : List String} {vs : List Atom},
+    ws.mapM (pyDecode b) = some vs → ∀ a ∈ vs, a.cls = classOf b
+  | [], vs, h => by simp at h; subst h; intro a ha; cases ha
+  | w :: ws, vs, h => by
+    simp only [List.mapM_cons] at h
+    cases hw : pyDecode b w with
     | none => rw [hw] at h; simp at h
     | some v =>
-      cases hr : decodeAll bs ws with
+      cases hr : ws.mapM (pyDecode b) with
+      | none => rw [hw, hr] at h; simp at h
+      | some r =>
+        rw [hw, hr] at h
+        simp at h
+        subst h
+        intro a ha
+        cases ha with
+        | head => exact pyDecode_cls hw
+        | tail _ ha => exact mapM_pyDecode_cls hr a ha
+
+theorem tryMember_cls {valid : SType → String → Bool} {o : Option SType} {b : B} {s : String}
+    {vs : List Atom} (h : tryMember valid o b s = some vs) : ∀ a ∈ vs, a.cls = classOf b := by
+  unfold tryMember at h
+  cases o with
+  | none =>
+    simp only [Option.map_eq_some_iff] at h
+    obtain ⟨v, hv, rfl⟩ := h
+    intro a ha; simp at ha; subst ha; exact pyDecode_cls hv
+  | some m =>
+    simp only at h
+    split at h
+    · cases h
+    · split at h
+      · exact mapM_pyDecode_cls h
+      · simp only [Option.map_eq_some_iff] at h
+        obtain ⟨v, hv, rfl⟩ := h
+        intro a ha; simp at ha; subst ha; exact pyDecode_cls hv
+
+theorem firstMember_cls {valid : SType → String → Bool} : ∀ {ps : List (Option SType × B)} {s : String}
+    {vs : List Atom}, firstMember valid ps s = some vs → ∀ a ∈ vs, ∃ b ∈ ps.map (·.2), a.cls = classOf b
+  | [], _, _, h => by simp [firstMember] at h
+  | (o, b) :: ps, s, vs, h => by
+    simp only [firstMember] at h
+    cases hd : tryMember valid o b s with
+    | some v =>
+      rw [hd] at h; cases h
+      intro a ha
+      exact ⟨b, by simp, tryMember_cls hd a ha⟩
+    | none =>
+      rw [hd] at h
+      intro a ha
+      obtain ⟨b', hb', hc⟩ := firstMember_cls h a ha
+      exact ⟨b', by simp only [List.map_cons, List.mem_cons]; exact Or.inr hb', hc⟩
+
+theorem decodeAll_cls {valid : SType → String → Bool} : ∀ {ps : List (Option SType × B)} {items : List String}
+    {vs : List Atom}, decodeAll valid ps items = some vs → ∀ a ∈ vs, ∃ b ∈ ps.map (·.2), a.cls = classOf b
+  | _, [], vs, h => by simp [decodeAll] at h; subst h; intro a ha; cases ha
+  | ps, w :: ws, vs, h => by
+    simp only [decodeAll] at h
+    cases hw : firstMember valid ps w with
+    | none => rw [hw] at h; simp at h
+    | some v =>
+      cases hr : decodeAll valid ps ws with
       | none => rw [hw, hr] at h; simp at h
       | some r =>
         rw [hw, hr] at h
         simp only [Option.some.injEq] at h
         subst h
         intro a ha
-        cases ha with
-        | head => exact firstProto_cls hw
-        | tail _ ha => exact decodeAll_cls hr a ha
+        simp only [List.mem_append] at ha
+        rcases ha with ha | ha
+        · exact firstMember_cls hw a ha
+        · exact decodeAll_cls hr a ha
 
-/-- every atom of a decoded sequence is an instance of the class of one of the prototypes -/
-theorem atomicSequence_cls {t : SType} {text : String} {vs : List Atom}
-    (h : atomicSequence t text = .ok vs) : ∀ a ∈ vs, ∃ b ∈ t.protos, a.cls = classOf b := by
+/-- every atom of a decoded sequence is an instance of the class of one of the prototypes — whatever
+the schema processor answers to `is_valid` -/
+theorem atomicSequence_cls {valid : SType → String → Bool} {t : SType} {text : String} {vs : List Atom}
+    (h : atomicSequence valid t text = .ok vs) : ∀ a ∈ vs, ∃ b ∈ t.protos, a.cls = classOf b := by
   unfold atomicSequence atomicLoop at h
   generalize (if t.isList = true then splitWs text else [text]) = items at h
-  cases hp : t.protos with
+  unfold SType.protos
+  cases hp : t.memberProtos with
   | nil =>
     rw [hp] at h
     simp only at h
     cases hie : items.isEmpty with
     | true => simp [hie] at h; subst h; intro a ha; cases ha
     | false => simp [hie] at h
-  | cons b bs =>
+  | cons ob obs =>
     rw [hp] at h
     simp only at h
-    cases hd : decodeAll (b :: bs) items with
+    cases hd : decodeAll valid (ob :: obs) items with
     | none => rw [hd] at h; cases h
     | some ws =>
       rw [hd] at h
@@ -74,25 +116,33 @@ def atomicBase? : SType → Option B
   | .list _ _ => none
   | .union _ _ => none
 
-theorem iterValues_atomic : ∀ {t : SType} {b : B}, atomicBase? t = some b → SType.iterValues 1 t = [b]
-  | .builtin b', b, h => by simp [atomicBase?] at h; subst h; simp [SType.iterValues]
+theorem iterMembers_atomic : ∀ {t : SType} {b : B}, atomicBase? t = some b →
+    SType.iterMembers 1 t = [(none, b)]
+  | .builtin b', b, h => by simp [atomicBase?] at h; subst h; simp [SType.iterMembers]
   | .restr n base f, b, h => by
-    simp only [atomicBase?] at h; simp only [SType.iterValues]; exact iterValues_atomic h
+    simp only [atomicBase?] at h; simp only [SType.iterMembers]; exact iterMembers_atomic h
   | .list n i, b, h => by simp [atomicBase?] at h
   | .union n ms, b, h => by simp [atomicBase?] at h
 
-/-- prototypes of an atomic type (fix F20c): the class of its nearest builtin -/
-theorem protos_atomic {t : SType} {b : B} (h : atomicBase? t = some b) : t.protos = [b] := by
+/-- prototypes of an atomic type (fix F20c): the class of its nearest builtin, outside any union -/
+theorem memberProtos_atomic {t : SType} {b : B} (h : atomicBase? t = some b) : t.memberProtos = [(none, b)] := by
   cases t with
   | builtin b' => simp [atomicBase?] at h; subst h; rfl
-  | restr n base f => simp only [SType.protos]; exact iterValues_atomic h
+  | restr n base f => simp only [SType.memberProtos]; exact iterMembers_atomic h
   | list n i => simp [atomicBase?] at h
   | union n ms => simp [atomicBase?] at h
 
+theorem protos_atomic {t : SType} {b : B} (h : atomicBase? t = some b) : t.protos = [b] := by
+  simp [SType.protos, memberProtos_atomic h]
+
+theorem memberProtos_list_atomic {n : Option String} {item : SType} {b : B} (h : atomicBase? item = some b) :
+    (SType.list n item).memberProtos = [(none, b)] := by
+  simp only [SType.memberProtos, SType.iterMembers]
+  exact iterMembers_atomic h
+
 theorem protos_list_atomic {n : Option String} {item : SType} {b : B} (h : atomicBase? item = some b) :
     (SType.list n item).protos = [b] := by
-  simp only [SType.protos, SType.iterValues, beq_self_eq_true, if_true]
-  exact iterValues_atomic h
+  simp [SType.protos, memberProtos_list_atomic h]
 
 theorem nearestB_atomic : ∀ {t : SType} {b : B}, atomicBase? t = some b → nearestB t = b
   | .builtin b', b, h => by simp [atomicBase?] at h; subst h; rfl
